@@ -32,7 +32,12 @@ func c12Oracles(c *Ctx, prop string, spec *charCaseSpec, stepIdx int, o *stepObs
 	cc := spec.cc
 	kind := formatKind(cc.C.Format)
 	if kind == "" {
-		return // undeclared format: outside the property
+		// undeclared format: outside the typing property — but a value a controller can send must not make the
+		// comparison with the stored value panic (F50)
+		if o.Panicked && panicClass(o.PanicMsg) == "comparing uncomparable type" {
+			c.Violate(prop+": operation panics: comparing uncomparable type (characteristic without a format)", spec.id, input, fmt.Sprintf("no panic (step %d)", stepIdx), o.PanicMsg)
+		}
+		return
 	}
 	wrapperOK := cc.Tcb == "-" || cc.Tcb == kind
 	at := fmt.Sprintf("step %d", stepIdx)
@@ -75,6 +80,40 @@ func c12Oracles(c *Ctx, prop string, spec *charCaseSpec, stepIdx int, o *stepObs
 	gi := map[string]int{"bool": 0, "int": 1, "float64": 2, "string": 3}[kind]
 	if o.Getters[gi] {
 		c.Violate(prop+": typed getter of the declared type panics", spec.id, input, "value ("+at+")", fmt.Sprintf("%T", v))
+	}
+	if stepIdx == 0 && (kind == "int" || kind == "float64") {
+		// the range getters of the wrapper of the declared type: total too, whether a bound is declared or not (F51)
+		for _, g := range []struct {
+			name string
+			f    func()
+		}{
+			{"GetMinValue", func() {
+				if kind == "int" {
+					(&characteristic.Int{Characteristic: cc.C}).GetMinValue()
+				} else {
+					(&characteristic.Float{Characteristic: cc.C}).GetMinValue()
+				}
+			}},
+			{"GetMaxValue", func() {
+				if kind == "int" {
+					(&characteristic.Int{Characteristic: cc.C}).GetMaxValue()
+				} else {
+					(&characteristic.Float{Characteristic: cc.C}).GetMaxValue()
+				}
+			}},
+			{"GetStepValue", func() {
+				if kind == "int" {
+					(&characteristic.Int{Characteristic: cc.C}).GetStepValue()
+				} else {
+					(&characteristic.Float{Characteristic: cc.C}).GetStepValue()
+				}
+			}},
+		} {
+			if msg, pan := safely(g.f); pan {
+				c.Violate(prop+": range getter of the declared type panics", spec.id, map[string]interface{}{"characteristic": cc.Desc, "getter": g.name, "min": fmt.Sprint(cc.C.MinValue), "max": fmt.Sprint(cc.C.MaxValue), "step": fmt.Sprint(cc.C.StepValue)}, "the bound, or the zero value when none is declared", trunc(msg, 120))
+				break
+			}
+		}
 	}
 	if kind == "string" && o.BytesGet {
 		c.Violate(prop+": Bytes.GetValue panics", spec.id, input, "value ("+at+")", fmt.Sprintf("%T", v))
